@@ -65,23 +65,23 @@ static cfg::CtxData g_ctxAlt[5];
 static cfg::Lg g_lg[5];
 #endif
 
-static void prefill(unsigned slot, uint64_t caseSeed) {
-	unsigned char* p = g_store[slot];
+static void prefillBytes(unsigned char* p, const size_t n, uint64_t salt) {
 	switch (g_fill) {
-	case 0: memset(p, 0x00, STORE_SIZE); break;
-	case 1: memset(p, 0xFF, STORE_SIZE); break;
-	case 2: memset(p, 0x01, STORE_SIZE); break;
-	case 3: memset(p, 0xAA, STORE_SIZE); break;
-	case 4: memset(p, 0x55, STORE_SIZE); break;
-	case 5: { vh::Rng r(caseSeed * 77 + slot); for (size_t i = 0; i < STORE_SIZE; ++i) p[i] = static_cast<unsigned char>(r.next()); break; }
+	case 0: memset(p, 0x00, n); break;
+	case 1: memset(p, 0xFF, n); break;
+	case 2: memset(p, 0x01, n); break;
+	case 3: memset(p, 0xAA, n); break;
+	case 4: memset(p, 0x55, n); break;
+	case 5: { vh::Rng r(salt); for (size_t i = 0; i < n; ++i) p[i] = static_cast<unsigned char>(r.next()); break; }
 	default:
-		memset(p, 0xCD, STORE_SIZE);
+		memset(p, 0xCD, n);
 #ifdef VERIF_VALGRIND
-		VALGRIND_MAKE_MEM_UNDEFINED(p, STORE_SIZE);
+		VALGRIND_MAKE_MEM_UNDEFINED(p, n);
 #endif
 		break;
 	}
 }
+static void prefill(unsigned slot, uint64_t caseSeed) { prefillBytes(g_store[slot], STORE_SIZE, caseSeed * 77 + slot); }
 
 static Instance* construct(unsigned slot, bool withLogger) {
 	void* mem = g_store[slot];
@@ -745,7 +745,22 @@ struct Case {
 #if HAS_SERIAL
 		Inst& a = A();
 		GuardedBuffer g = opSave(a);
-		const int activity = a.cur;
+		int activity = a.cur;
+		const SerialBuffer* src = &g.buf;
+#if CFG_MANUAL
+		// one in six: the buffer loaded from is a fresh, default-initialised SerialBuffer that nothing was saved into, built over
+		// pre-filled memory like the machines - it is the serialized form of an inactive machine whatever that memory held (C17)
+		alignas(16) static unsigned char freshStore[sizeof(SerialBuffer) + 16];
+		const bool fresh = w.ch.chance(1, 6);
+		if (fresh) {
+			prefillBytes(freshStore, sizeof freshStore, w.caseNo * 131 + 7);
+			src = new (freshStore) SerialBuffer;
+			activity = -1;
+			w.stats.add("loads_from_fresh_buffers");
+		}
+#else
+		const bool fresh = false;
+#endif
 		if (!Ld().alive) opConstruct(2, POL_PASSIVE, false);
 		Inst& l = Ld();
 		l.policy = POL_PASSIVE;
@@ -764,16 +779,32 @@ struct Case {
 #endif
 		l.policy = POL_HOSTILE;
 		w.apiBegin(l, OP_LOAD, activity < 0 ? 255 : static_cast<uint8_t>(activity));
-		LIB(l.obj->load(g.buf));
+		LIB(l.obj->load(*src));
 		w.apiEnd(l);
 		checkObs(l, "load()");
 		const int got = l.obj->activeStateId() == ffsm2::INVALID_STATE_ID ? -1 : l.obj->activeStateId();
 		if (got != activity) w.V("C12", "loader-activity-differs-from-saver", fmt("saver activity %d, loader after load() %d; %s", activity, got, w.tail().c_str()));
+		if (fresh && got != -1) w.V("C17", "fresh-buffer-not-the-inactive-form", fmt("load() from a default-initialised SerialBuffer (memory pre-filled with pattern %u) left the loader in state %d; %s", g_fill, got, w.tail().c_str()));
 		// canonical: the loader now serialises to the same bytes
 		GuardedBuffer g2 = opSave(l);
-		if (g2.bytes() != g.bytes()) w.V("C12", "buffers-differ-for-equal-activity", fmt("loader re-saved differs from the buffer it loaded (activity %d)", activity));
+		if (!fresh && g2.bytes() != g.bytes()) w.V("C12", "buffers-differ-for-equal-activity", fmt("loader re-saved differs from the buffer it loaded (activity %d)", activity));
 		l.policy = POL_PASSIVE;
 		w.stats.add("save_load_roundtrips");
+#if !CFG_MANUAL
+		// C01: an automatically activated machine has exactly one active state for as long as it lives and leaves nothing
+		// unpaired - also after it was handed a buffer that holds no activity (a blank one; only C01 is judged here)
+		if (w.ch.chance(1, 8)) {
+			const SerialBuffer blank{};
+			w.apiBegin(l, OP_OBSERVE);
+			LIB(l.obj->load(blank));
+			w.apiEnd(l);
+			const ffsm2::StateID now = l.obj->activeStateId();
+			if (now == ffsm2::INVALID_STATE_ID || l.cur < 0)
+				w.V("C01", "automatic-machine-without-active-state|after=load-of-blank-buffer", fmt("an automatically activated machine reports active state %u (entered-and-not-exited state: %d) after load() of a blank buffer; %s", now, l.cur, w.tail().c_str()));
+			checkObs(l, "load() of a blank buffer");
+			w.stats.add("blank_buffer_loads_into_automatic_machines");
+		}
+#endif
 #endif
 	}
 
@@ -892,6 +923,16 @@ struct Case {
 		sn.plan = readPlan(static_cast<const Instance*>(sn.obj)->plan());
 #endif
 		w.snapPending = false;
+#if HAS_SERIAL
+		if (sn.cur >= 0) {
+			// whatever the original was in the middle of, the copy serialises to the bytes of the activity it reports (C12)
+			static const char* const ONLY_C12[] = {"C12", nullptr};
+			w.muteAllow = ONLY_C12;
+			(void) opSave(sn);
+			w.muteAllow = nullptr;
+			w.stats.add("snapshot_saves");
+		}
+#endif
 		if (sn.cur >= 0) {
 			w.muteAllow = ONLY_C05;
 #if CFG_MANUAL
@@ -1337,6 +1378,21 @@ int main(int argc, char** argv) {
 	};
 #endif
 	// (not with states that are visible through an attached verbose logger only: the snapshot has no logger of its own)
+#if HAS_SERIAL
+	// save() is a const observer: called from inside any callback it writes the bytes of the activity the machine reports there
+	world.saveInCallbackHook = [](Inst& in) {
+		World& w = *W;
+		const ffsm2::StateID act = in.obj->activeStateId();
+		if (act == ffsm2::INVALID_STATE_ID) return;   // being activated / deactivated: nothing is promised about the form
+		GuardedBuffer g;
+		static_cast<const Instance*>(in.obj)->save(g.buf);
+		const unsigned key = 1 + static_cast<unsigned>(act);
+		if (!g.intact()) w.V("C12", "save-wrote-outside-buffer", "save() called inside a callback damaged the canary bytes around the SerialBuffer object");
+		if (key <= N && g_canonKnown[key] && g_canon[key] != g.bytes())
+			w.V("C12", "buffers-differ-for-equal-activity|saved-inside-callback", fmt("save() called inside a callback while activeStateId()=%u produced bytes that differ from the form of that activity; %s", act, w.tail().c_str()));
+		w.stats.add("saves_inside_callbacks");
+	};
+#endif
 	if (!cfg::BARE) world.snapshotHook = [](Inst& in, ffsm2::Method m) {
 		World& w = *W;
 		prefill(4, w.caseNo + 3000);
